@@ -429,9 +429,12 @@ func solveObligation(sc *smtScript, ob *Obligation, opts solveOpts) {
 		// VCs come in pairs (assumptions before the call / after assuming the callee's postcondition, or before a loop /
 		// after assuming its invariants): a satisfiable state must not be turned into an unsatisfiable one
 		ob.Status = "discharged"
-		for i := 0; i+1 < len(best); i += 2 {
-			used[best[i].solver], used[best[i+1].solver] = true, true
-			if best[i].status == "sat" && best[i+1].status == "unsat" {
+		// triples: state before the call / after assuming the contract / quantifier-free part of the state before.
+		// Failure: the state after is refuted while the state before is not, and the state before (or at least its
+		// quantifier-free part: the quantified assumptions are frame axioms and invariants) has a model.
+		for i := 0; i+2 < len(best); i += 3 {
+			used[best[i].solver], used[best[i+1].solver], used[best[i+2].solver] = true, true, true
+			if best[i+1].status == "unsat" && best[i].status != "unsat" && (best[i].status == "sat" || best[i+2].status == "sat") {
 				ob.Status = "failed"
 				ob.Detail = "reachable state becomes unreachable once the contract/invariant is assumed (contradictory or unsound specification): " + ob.Detail
 			}
